@@ -78,7 +78,64 @@ def build(desc):
     U = make_universe(desc["univ"])
     t = new_tree(desc)
     add_nodes(t._root, desc["nodes"], U, bool(desc.get("typed")))
+    if desc.get("post"):
+        apply_post(t, U, desc["post"], bool(desc.get("typed")))
     return t, U
+
+
+def apply_post(tree, U, post, typed=False):
+    """Mutation history applied after the build, so that read-only properties are also checked on trees that were
+    REACHED THROUGH A HISTORY (emptied child lists, creation order different from pre-order, re-parented nodes).
+    post = [OP*]; node arguments are pre-order indices (modulo the current node count) at the time of the op;
+    operations the library refuses are skipped.  OP =
+      ["remove", i] | ["remove_keep", i] | ["remove_children", i] | ["move", i, j|null, before] | ["sort", i, reverse]
+      | ["add", i, label, kind, before]   (i = -1: below the tree itself)"""
+    for op in post:
+        nodes = all_nodes(tree._root)
+        try:
+            k = op[0]
+            if k == "add":
+                parent = tree if op[1] == -1 or not nodes else nodes[op[1] % len(nodes)]
+                kw = {"kind": op[3] or "child"} if typed else {}
+                if op[4] is not None:
+                    kw["before"] = op[4]
+                parent.add(U.objs[op[2] % len(U.objs)], **kw)
+                continue
+            if not nodes:
+                continue
+            n = nodes[op[1] % len(nodes)]
+            if k == "remove":
+                n.remove()
+            elif k == "remove_keep":
+                n.remove(keep_children=True)
+            elif k == "remove_children":
+                n.remove_children()
+            elif k == "move":
+                target = tree if op[2] is None else nodes[op[2] % len(nodes)]
+                n.move_to(target, before=op[3])
+            elif k == "sort":
+                n.sort_children(reverse=bool(op[2]))
+        except Exception:  # noqa: BLE001  (refused / invalid for this tree: skipped)
+            pass
+
+
+def random_post(rng, n_nodes, n_labels, typed=False, kinds=("a", "b", "c"), allowed=None):
+    """1-3 random post operations (see apply_post), biased towards the shapes that fresh builds never have."""
+    ops = []
+    for _ in range(rng.randint(1, 3)):
+        k = rng.choice([x for x in ["remove_keep", "remove_keep", "move", "move", "add", "add", "remove", "remove_children", "sort"]
+                        if allowed is None or x in allowed])
+        i = rng.randrange(max(1, n_nodes))
+        if k == "move":
+            ops.append(["move", i, rng.choice([None, rng.randrange(max(1, n_nodes))]), rng.choice([None, True, 0, 1])])
+        elif k == "add":
+            ops.append(["add", rng.choice([-1, i]), rng.randrange(max(1, n_labels)), rng.choice(kinds) if typed else None,
+                        rng.choice([None, True, 0])])
+        elif k == "sort":
+            ops.append(["sort", i, rng.choice([0, 1])])
+        else:
+            ops.append([k, i])
+    return ops
 
 
 def shape_to_nodes(shape, labeler):
